@@ -77,7 +77,7 @@ type Store struct {
 	OrderHash   *uint64
 	Tag         uint64
 
-	// Arena: hand keys and values out as slices of buffers the store keeps (the same backing
+	// Arena (on by default): hand keys and values out as slices of buffers the store keeps (the same backing
 	// array for every caller, spare capacity behind the data filled with a canary), the way an
 	// in-memory engine may return its own memory. A library that appends to or writes into what
 	// it was handed damages them: ArenaDamage reports it (and the race detector sees the writes).
@@ -133,7 +133,7 @@ func (s *Store) ArenaDamage() []string {
 }
 
 func New(pairs []Pair) *Store {
-	s := &Store{vals: map[string]string{}, FailAt: -1}
+	s := &Store{vals: map[string]string{}, FailAt: -1, Arena: true}
 	for _, p := range pairs {
 		if _, ok := s.vals[p.K]; !ok {
 			s.keys = append(s.keys, p.K)
@@ -147,7 +147,7 @@ func New(pairs []Pair) *Store {
 func (s *Store) Clone() *Store {
 	s.mu.Lock()
 	defer s.mu.Unlock()
-	n := &Store{vals: make(map[string]string, len(s.vals)), FailAt: -1}
+	n := &Store{vals: make(map[string]string, len(s.vals)), FailAt: -1, Arena: s.Arena}
 	n.keys = append([]string(nil), s.keys...)
 	for k, v := range s.vals {
 		n.vals[k] = v
